@@ -45,7 +45,7 @@ def required_outcomes(tier):
 
 def check_one(case):
     cells = [tuple(c) for c in case["cells"]]
-    if case.get("napp") is not None or case.get("search"):
+    if case.get("napp") is not None or case.get("search") or case.get("osm"):
         return {"outcome": "ok", "nt": False, "viol": [], "tr": 1}  # C07's sub-space, no shown() model for it
     wb, kw = C07.build_case(case, delim=case["delim"], deflang_arg=case["arg"])
     out = run_convert(wb, **kw)
